@@ -74,4 +74,51 @@ def SomeEntryRejects (guards : List (Bool → Bool → Bool → Bool)) (st : St)
 def NamesOfTypes (st : St) : Prop :=
   ∀ nm, st.typeNames nm = true ↔ ∃ id, st.types id = some nm
 
+/-! ## `TypeChecker::declare_runtime_type` (target `declrtype`) -/
+
+/-- the variants of `TypeDefinition` the primitive shortcut can name -/
+inductive TyDefKind | primitive | list | runtime | record | enum
+  deriving DecidableEq, Repr
+
+inductive RtStep
+  /-- `if let Some(other) = ….resolve_name(..) && let <kinds> = other.kind { …; return Ok(()) }` -/
+  | shortcut
+  /-- `….insert_type(scope, &ident, .., TypeDefinition::Runtime(name, type_id))…?` -/
+  | insertType
+  /-- `self.type_info.types.insert(name, ty)` -/
+  | recordDefinition
+  deriving DecidableEq, Repr
+
+structure DeclRtFacts where
+  steps : List RtStep
+  /-- the shortcut looks the registration's own identifier up, starting in its own scope -/
+  lookupOwn : Bool
+  /-- the `recurse` argument of that lookup: also through the imports and the enclosing scopes -/
+  recurse : Bool
+  /-- the kinds of type definition the shortcut applies to -/
+  shortcutKinds : List TyDefKind
+  /-- the shortcut's block declares nothing and returns `Ok(())` -/
+  shortcutDeclaresNothing : Bool
+  /-- `insert_type` gets the registration's own scope and identifier and `Runtime(own name, own type id)` -/
+  insertsItsOwn : Bool
+  recordsItsOwn : Bool
+  deriving DecidableEq, Repr
+
+/-- what `declareType` of `Model/Registration.lean` embodies under `Cfg.fixed`:
+    `found := st.decls nm` (NOT `resolveRec`), `shortcut := d.kind = .prim`
+    (`Kind.prim` = `TypeDefinition::Primitive(_) | List(_)`) → only the two
+    indexes are extended; otherwise a taken name is an error and the
+    declaration is inserted under the registration's own name. -/
+def declRtAsModelled : DeclRtFacts where
+  steps := [.shortcut, .insertType, .recordDefinition]
+  lookupOwn := true
+  recurse := false
+  shortcutKinds := [.primitive, .list]
+  shortcutDeclaresNothing := true
+  insertsItsOwn := true
+  recordsItsOwn := true
+
+/-- the configuration of the model that the source's `declare_runtime_type` is -/
+def DeclRtFacts.cfg (f : DeclRtFacts) : Cfg := { Cfg.fixed with primRecursive := f.recurse }
+
 end RotoV.Reg.Src
